@@ -3,10 +3,31 @@
  * every operation.  -DVF_S_WIDE selects the wchar_t instantiation.  Aborting calls are covered
  * by the proved groups (string.*); here only calls inside the documented domain are made.
  */
+#define VF_REALLOC_FULLCOPY
 #include "vf.h"
 #include <stdlib.h>
 #include <string.h>
 #include <wchar.h>
+#ifndef VF_NATIVE
+/* reference models of the C library functions the string code and this harness use (CBMC has no
+ * body for some of them); plain loops over NUL-terminated arrays */
+#define VF_LIBC(T, LEN, CHR, STR, CMP)                                                        \
+size_t LEN(const T * s) { size_t n = 0; while (s[n] != 0) n++; return n; }                     \
+T * CHR(const T * s, T c) { for (;; s++) { if (*s == c) return (T *)s; if (*s == 0) return NULL; } } \
+int CMP(const T * a, const T * b) { for (;; a++, b++) { if (*a != *b) return *a < *b ? -1 : 1; if (*a == 0) return 0; } } \
+T * STR(const T * h, const T * n) { size_t i; for (;; h++) { for (i = 0; n[i] != 0 && h[i] == n[i]; i++) { } if (n[i] == 0) return (T *)h; if (*h == 0) return NULL; } }
+#define strlen vf_strlen
+#define strchr vf_strchr
+#define strstr vf_strstr
+#define strcmp vf_strcmp
+#define wcslen vf_wcslen
+#define wcschr vf_wcschr
+#define wcsstr vf_wcsstr
+#define wcscmp vf_wcscmp
+VF_LIBC(char, vf_strlen, vf_strchr_i, vf_strstr, vf_strcmp)
+static char * vf_strchr(const char * s, int c) { return vf_strchr_i(s, (char)c); }
+VF_LIBC(wchar_t, vf_wcslen, vf_wcschr, vf_wcsstr, vf_wcscmp)
+#endif
 #include "memory.c"
 #include "array.c"
 #include "vector.c"
@@ -68,8 +89,11 @@ static const size_t vf_counts[5] = { 0, 1, 2, (size_t)-2, (size_t)-1 };
 void h_b_edit(void)
 {
     int w, v; size_t pos; int c;
-    for (w = 0; w < 4; w++) {
-        for (v = 0; v < 4; v++) {
+#ifndef VF_W
+#define VF_W 4
+#endif
+    for (w = 0; w < VF_W; w++) {
+        for (v = 0; v < VF_W; v++) {
             const size_t wl = LIBLEN(vf_words[w]), vl = LIBLEN(vf_words[v]);
             for (pos = 0; pos <= wl; pos++) {
                 vf_str s, t, sub;
@@ -135,7 +159,7 @@ void h_b_edit(void)
                 SF(clear)(&t); SF(clear)(&sub);
             }
         }
-        VF_REACH(w == 3, "longest base word reached");
+        VF_REACH(w == VF_W - 1, "longest base word reached");
     }
     VF_END();
 }
